@@ -59,6 +59,29 @@ pub fn run(tier: &str, seed: u64, dir: &str) {
                 sink.case(&op, &eval(&op), "ack-after-several-downlinks", true);
             }
         }
+        // unanswered uplinks spent at the region's lowest data rate count like any others: the
+        // application raises the rate again before any downlink is accepted
+        for (k, start) in [(0u32, 0u32), (1, 40), (2, 60), (3, 63), (4, 90)] {
+            let drs = uplink_drs(region);
+            let mut h = Hist::new("C12", region, 20, 0, 200 + k as u64, &[], None);
+            h.go_live();
+            h.sess(rng.below(1000) as u32, None, start, false, &[], false);
+            h.ev("dr 0");
+            for _ in 0..1 + rng.below(35) {
+                h.send(1, false, &[7]).timeout();
+            }
+            let e = format!("dr {}", drs[1 + rng.below(drs.len() as u64 - 1) as usize]);
+            h.ev(&e);
+            for _ in 0..110 {
+                if h.dead {
+                    break;
+                }
+                h.send(1 + rng.below(3) as u8, false, &[7]).timeout();
+            }
+            h.snap();
+            let op = h.done();
+            sink.case(&op, &eval(&op), "floor-then-raise", true);
+        }
         let n = if thorough { 500 } else { 30 };
         for i in 0..n {
             let drs = uplink_drs(region);
